@@ -48,6 +48,8 @@ type c06Case struct {
 	// matches every configured URI but the empty one, no OneTimeUse, no ProxyRestriction when
 	// the first has them and vice versa): the warnings are about the FIRST assertion
 	Second bool `json:"second_assertion,omitempty"`
+	// PerAssertion: the Response is unsigned and every assertion carries its own signature
+	PerAssertion bool `json:"assertions_signed_individually,omitempty"`
 }
 
 func c06Spec(c c06Case) idp.ResponseSpec {
@@ -89,6 +91,12 @@ func c06Spec(c c06Case) idp.ResponseSpec {
 		a.Proxy = ps
 	}
 	r.Sign = idp.SignSpec{Key: "K3"}
+	if c.PerAssertion {
+		r.Sign = idp.SignSpec{}
+		for i := range r.Assertions {
+			r.Assertions[i].Sign = idp.SignSpec{Key: "K3"}
+		}
+	}
 	return r
 }
 
@@ -219,6 +227,8 @@ func c06Docs(maxR int) []c06Case {
 				docs = append(docs, c06Case{Restr: cp, OTU: otu == 1, Proxy: p})
 				if len(prefix) <= 1 {
 					docs = append(docs, c06Case{Restr: cp, OTU: otu == 1, Proxy: p, Second: true})
+					docs = append(docs, c06Case{Restr: cp, OTU: otu == 1, Proxy: p, Second: true, PerAssertion: true})
+					docs = append(docs, c06Case{Restr: cp, OTU: otu == 1, Proxy: p, PerAssertion: true})
 				}
 			}
 		}
@@ -238,7 +248,7 @@ func c06Run(r *mc.Run) {
 	if r.Thorough() {
 		maxR = 3
 	}
-	r.Rule = fmt.Sprintf("every sequence of 0..%d AudienceRestrictions, each every ordered list of 0..2 audiences over a 6-value near-miss alphabet (exact, case, trailing slash, leading space, other, empty) x OneTimeUse x 5 ProxyRestriction shapes (full product up to 2 restrictions; at 3 restrictions at most one of OneTimeUse/Proxy deviates) x 3 configured audience URIs (exact, empty, upper-case), plus (up to 1 restriction) a second assertion whose conditions say the opposite; non-trivial = accepted genuine response whose warnings were compared; distinct = distinct (document, uri)", maxR)
+	r.Rule = fmt.Sprintf("every sequence of 0..%d AudienceRestrictions, each every ordered list of 0..2 audiences over a 6-value near-miss alphabet (exact, case, trailing slash, leading space, other, empty) x OneTimeUse x 5 ProxyRestriction shapes (Response-signed; the shapes with at most one restriction also in an unsigned Response whose assertions are signed individually, alone and followed by a second assertion that says the opposite) (full product up to 2 restrictions; at 3 restrictions at most one of OneTimeUse/Proxy deviates) x 3 configured audience URIs (exact, empty, upper-case), plus (up to 1 restriction) a second assertion whose conditions say the opposite; non-trivial = accepted genuine response whose warnings were compared; distinct = distinct (document, uri)", maxR)
 	docs := c06Docs(maxR)
 	r.Set("documents", len(docs))
 	r.State(len(docs))
@@ -268,7 +278,7 @@ func c06Run(r *mc.Run) {
 			r.Transition(1)
 			r.Bucket(class)
 			if class != "REJECTED" {
-				r.Nontrivial(fmt.Sprintf("%v/%v/%d/%d/%v", c.Restr, c.OTU, c.Proxy, u, c.Second))
+				r.Nontrivial(fmt.Sprintf("%v/%v/%d/%d/%v/%v", c.Restr, c.OTU, c.Proxy, u, c.Second, c.PerAssertion))
 			}
 			if (i*3+u)%7919 == 0 {
 				r.Sample(map[string]interface{}{"case": c, "observed": detail})
